@@ -1,6 +1,8 @@
 package main
 
 import (
+	"bytes"
+	"encoding/hex"
 	"encoding/json"
 	"fmt"
 	"math/rand"
@@ -27,6 +29,10 @@ type xcase struct {
 	Valid  bool           `json:"valid"`
 	Vis    bool           `json:"vis"`
 	True   map[string]int `json:"true"`
+	// directed strings
+	Name  string `json:"name"`
+	At    string `json:"at"`
+	Patch string `json:"patch"`
 }
 
 const tailLen = 96
@@ -151,13 +157,23 @@ func runXdec(casesPath, tracePath string, from, nrand int) {
 	looped := false
 	allocSkip := map[string]bool{} // layout/field whose decoder was seen to allocate from the announced length
 	vh.Must(vh.ReadCases(casesPath, func(raw json.RawMessage) error {
+		if looped {
+			return nil
+		}
 		idx++
-		if idx <= from || looped {
+		if idx <= from {
 			return nil
 		}
 		var c xcase
 		if err := json.Unmarshal(raw, &c); err != nil {
 			return err
+		}
+		if c.Patch != "" {
+			if !runDirected(tr, idx, &c) {
+				looped = true
+			}
+			ncalls += len(tails)
+			return nil
 		}
 		a := pristine(c.Layout, 1001)
 		if len(a) != c.T {
@@ -214,6 +230,40 @@ func runXdec(casesPath, tracePath string, from, nrand int) {
 	}
 	tr.Close()
 	fmt.Printf("xdec cases=%d calls=%d events=%d\n", idx, ncalls, tr.Len())
+}
+
+// runDirected gives one directed string (a pristine frame with an inner length replaced) to the decoder.
+func runDirected(tr *vh.Trace, idx int, c *xcase) bool {
+	a := pristine(c.Layout, 1001)
+	at, _ := hex.DecodeString(c.At)
+	patch, _ := hex.DecodeString(c.Patch)
+	pos := bytes.Index(a, at)
+	if pos < 0 || len(at) == 0 || len(at) != len(patch) {
+		vh.Must(fmt.Errorf("directed string %s/%s: pattern %s not in the pristine frame", c.Layout, c.Name, c.At), "directed")
+	}
+	copy(a[pos:], patch)
+	stream := append(append([]byte{}, a...), pristine(c.Layout, 1002)...)
+	n := len(a)
+	runs := []runRes{}
+	ok := true
+	for _, t := range tails {
+		r := decodeOnce(c.Codec, memoryBehind(stream, n, t), t)
+		runs = append(runs, r)
+		if r.Out == "loop" {
+			ok = false
+			break
+		}
+	}
+	ms := []matchRes{}
+	if ok {
+		for _, p := range codecNames {
+			r1 := matchOnce(p, memoryBehind(stream, n, "tight"))
+			ms = append(ms, matchRes{P: p, Res: r1, Same: true})
+		}
+	}
+	tr.Emit(vh.Ev{"ev": "str", "case": idx, "codec": c.Codec, "layout": c.Layout, "name": c.Name, "n": n, "runs": runs,
+		"tailsame": !ok || sameRuns(runs), "ms": ms, "input": clipHex(a, 80)})
+	return ok
 }
 
 // runRandX: seeded random strings and random corruptions of valid frames, per codec; one summary event per batch.
